@@ -99,7 +99,14 @@ func expect(s *script, keHost string) expectation {
 				}
 			}
 		case netlab.RecCookie:
-			e.cookies = append(e.cookies, r.Body)
+			// a cookie is good for one request: the pool holds one copy of a cookie the server sends twice
+			dup := false
+			for _, c := range e.cookies {
+				dup = dup || bytes.Equal(c, r.Body)
+			}
+			if !dup {
+				e.cookies = append(e.cookies, r.Body)
+			}
 		case netlab.RecServer:
 			e.server = string(r.Body)
 		case netlab.RecPort:
@@ -443,7 +450,7 @@ func fetch(t failer, f *ntske.Fetcher, m *model, s *script, hist *[]string) stri
 	return "exchange-succeeded"
 }
 
-var rec = ev.New("c20/fetcher-histories", "rapid state machine on one real ntske.Fetcher (TLS) against the harness's scripted TLS 1.3 key-exchange server (run-time self-signed certificate): each step is one FetchData call; when the model pool is empty the server plays a generated script: ALPN {ntske/1, both, other, none}; record stream from a grammar (next protocol, AEAD 15 / other / missing, optional server and port records, 0..8 cookies of 1..300 bytes, optional reordering, inserted unknown non-critical / unknown critical / error (0,1,2,77) / warning records at any position, end record present or missing, records after the end; known record types with bodies of 0..12 bytes instead of 2 and bodies that look like record headers), truncation at any byte offset, write segmentation {1 byte, n bytes, random sizes, all at once}, connection reset after the handshake or after sending, or (rarely) left open and silent for longer than the exchange's time limit. Oracle: success only if the statement's conditions hold on the bytes sent (own record parser); plain well-formed streams (with unknown non-critical records, extra records after the end, any segmentation) must succeed; on success keys == exporter values of the server's side of the same TLS session (label and contexts written out independently), C2S != S2C, pool == issued cookies in order, server/port as named or KE host:123; following calls are served from the pool without a new connection, one cookie each, same keys; after a failure the next call opens exactly one new connection and depends on the new script only. One evaluation = one FetchData call. Non-trivial: history with a script that delivers >= 1 cookie and then fails, a success after a failure, or a segmented record; distinct by history hash")
+var rec = ev.New("c20/fetcher-histories", "rapid state machine on one real ntske.Fetcher (TLS) against the harness's scripted TLS 1.3 key-exchange server (run-time self-signed certificate): each step is one FetchData call; when the model pool is empty the server plays a generated script: ALPN {ntske/1, both, other, none}; record stream from a grammar (next protocol, AEAD 15 / other / missing, optional server and port records, 0..8 cookies of 1..300 bytes, optional reordering, inserted unknown non-critical / unknown critical / error (0,1,2,77) / warning records at any position, end record present or missing, records after the end; known record types with bodies of 0..12 bytes instead of 2 and bodies that look like record headers), truncation at any byte offset, write segmentation {1 byte, n bytes, random sizes, all at once}, connection reset after the handshake or after sending, or (rarely) left open and silent for longer than the exchange's time limit. Oracle: success only if the statement's conditions hold on the bytes sent (own record parser); plain well-formed streams (with unknown non-critical records, extra records after the end, any segmentation) must succeed; on success keys == exporter values of the server's side of the same TLS session (label and contexts written out independently), C2S != S2C, pool == the distinct issued cookies in order, server/port as named or KE host:123; following calls are served from the pool without a new connection, one cookie each, same keys; after a failure the next call opens exactly one new connection and depends on the new script only. One evaluation = one FetchData call. Non-trivial: history with a script that delivers >= 1 cookie and then fails, a success after a failure, or a segmented record; distinct by history hash")
 
 func TestPropFetcherHistories(t *testing.T) {
 	vt.Check(t, 250, 2500, func(t *rapid.T) {
